@@ -1416,7 +1416,7 @@ var sampled = map[string]int{}
 // ---------------------------------------------------------------- plans
 
 type plan struct {
-	mode   string // lockstep | hook | ext | exthook | burst | randhook | racing
+	mode   string // lockstep | hook | ext | exthook | burst | randhook | racing | slice | randslice (slice_test.go)
 	cfg    string
 	ext    bool // extended alphabet
 	prefix []op
@@ -1424,6 +1424,10 @@ type plan struct {
 	maxLen int
 	hook   string
 	k, m   int
+	minLen int // visit only sequences at least this long (the shorter ones belong to another plan entry)
+	// slice modes
+	spare   int
+	sprefix []sop
 }
 
 func (p plan) enumerated() bool {
@@ -1515,8 +1519,9 @@ func plans() []plan {
 	ps = append(ps, groups("ext", allCfgs(sp.extN, extKinds), true, sp.extL, sp.extG, "", 0, 0)...)
 	if sp.extL2 > sp.extL {
 		// the longer sequences only (those of length <= extL were enumerated just above)
-		for _, pl := range groups("ext", allCfgs(sp.extN2, extKinds), true, sp.extL2, sp.extL+1, "", 0, 0) {
+		for _, pl := range groups("ext", allCfgs(sp.extN2, extKinds), true, sp.extL2, 2, "", 0, 0) {
 			if !pl.short {
+				pl.minLen = sp.extL + 1
 				ps = append(ps, pl)
 			}
 		}
@@ -1526,6 +1531,7 @@ func plans() []plan {
 			ps = append(ps, groups("exthook", allCfgs(sp.exthookN, extKinds), true, sp.exthookL, 1, h, 1, m)...)
 		}
 	}
+	ps = append(ps, slicePlans()...)
 	for i := 0; i < sp.nBurst; i++ {
 		ps = append(ps, plan{mode: "burst"})
 	}
@@ -1687,6 +1693,7 @@ func TestCheck(t *testing.T) {
 		"(hook, exhaustive for its parameters) pools of 0..%d initial contexts x sequences of 0..%d operations x the watcher parked at the k-th hit of pool.waited (k=1..%d) or at pool.exit / pool.unlocked (reached once) with the next 1 or 2 operations of the sequence issued exactly there; "+
 		"(ext, enumerated) pools of 0..%d initial contexts of kind {live, ended, Background, custom nil-Done type, deadline} x every sequence of 0..%d operations%s over the classic alphabet plus {Add never-ending ctx (Background / WithValue / WithoutCancel(cancelled parent) / custom, flavour = handle number mod 4), Add deadline ctx, Add child of the lowest/highest cancellable member, Add again the context of the lowest/highest live member, Add the pool itself, Add a child of the pool, let 15ms of virtual time pass}; (exthook) the same alphabet, 0..%d initial contexts x 0..%d operations x parked at the first hit of each hook point with 1 or 2 operations placed; "+
 		"(burst) %d seeded sequences of 4..14 operations issued back to back with no quiescence; (randhook) %d seeded lock-step sequences of 6..16 operations on up to 4 initial contexts with a seeded park (hit 1..5, 1..3 placed operations); (racing) %d seeded histories of 2..6 phases whose 1..5 operations are released together from separate goroutines, biased to Add racing the cancellation of the last live member; the seeded modes use the extended alphabet and all initial kinds (also the same context passed twice). "+
+		"(slice, enumerated; slice_test.go) the initial contexts are handed over as a caller-owned slice with spare capacity, NewPool(s...): initial slices of 0..3 live/ended contexts (ended ones in front too) x spare capacity 0..2 (thorough 0,1,2,4) x every sequence of 0..3 (thorough 0..4) operations over {cancel(h), Add live/ended to pool 1 or 2, build a second pool from the same slice, the caller overwrites its first/last element, reverses its slice, appends to it, Cancel pool 1 or 2}, quiescent between operations; each pool is judged against its own membership (Done() closed iff it was cancelled or all ITS members ended; Size() = its member count) and the caller's slice must hold, over its whole capacity, exactly what the caller put there after every NewPool/Add; (randslice) seeded sequences of 4..10 such operations on slices of 0..4 contexts (also Background) with spare capacity 0..4. "+
 		"Tuples are enumerated without repetition, so distinct = evaluated for the enumerated modes; seeded cases are distinct by their operation list. Non-trivial = the pool was observed live at a quiescent point (it had a live member) or operations were placed at a hook; a hook case whose hook is not reached before the tail is counted trivial.",
 		sp.seqN, sp.seqL, also, sp.hookN, sp.hookL, sp.hookK, sp.extN, sp.extL, alsoExt, sp.exthookN, sp.exthookL, sp.nBurst, sp.nRandHook, sp.nRacin))
 	rec.Note("oracle", "never-early: whoever first sees Done() (observer goroutine, hook handler, client after each call) demands that every protected member has ended by the harness's log (cancelled by the harness, deadline passed in virtual time, an ancestor ended) or Cancel was called; a never-ending member (Done()==nil) never ends, so the pool must stay live until Cancel, also across 1h of virtual time. protected = live at creation, or Add called while Done() was open and returned while a protected member was live. eventually: at every quiescent point (synctest.Wait returned, nothing parked) Done() must be closed if Cancel returned or every context accepted or possibly accepted has ended. Size must lie in [certainly accepted, certainly+possibly accepted], 0 after Cancel, and a solo Size fixes the count; never-ending, deadline and child members count for certain, a context offered a second time and contexts derived from the pool itself only raise the upper bound. An Add that overlaps/follows the end of the last protected member may be ignored, counted, tracked or not: all accepted and counted (unprotected.*, size.uncertain_*). The pool itself or a child of it as a member: it ends exactly when the pool does, so it can never make Done() early and the statement demands neither that the pool stays live nor that it ends; it does not protect later Adds (conservative); observed and counted (poolderived.*).")
@@ -1697,6 +1704,7 @@ func TestCheck(t *testing.T) {
 		"add.protected", "add.unprotected", "add.offered_after_done", "add.offered_after_cancel",
 		"add.protected.kind_B", "add.protected.kind_V", "add.protected.kind_W", "add.protected.kind_U", "add.protected.kind_D", "add.protected.kind_C", "add.protected.kind_=",
 		"ctxkind.P", "ctxkind.Q", "deadline.expired_in_virtual_time", "never.pool_live_on_never_ending_member_only", "tail.pool_live_until_cancel", "tail.pool_done_before_cancel", "tail.hour_passed_with_pool_live",
+		"slice.unchanged_checks", "slice.second_pool_from_same_slice", "slice.caller_overwrite", "slice.caller_reverse", "slice.caller_append_into_spare_capacity", "slice.ended_in_front_of_live", "slice.add_while_slice_has_spare_capacity", "slice.pool_checks",
 		"size.checked", "size.zero_after_cancel", "quiescent.checks", "quiescent.live", "racing.phases", "watcher.exited_at_end",
 	})
 	if mon.Only() < 0 {
@@ -1729,11 +1737,19 @@ func countPlans(t *testing.T) {
 	g := map[string]int{}
 	for _, pl := range plans() {
 		g[pl.mode]++
+		if pl.mode == "slice" || pl.mode == "randslice" {
+			n[pl.mode] += countSlicePlan(pl)
+			continue
+		}
 		if !pl.enumerated() {
 			n[pl.mode]++
 			continue
 		}
-		visit := func([]op) { n[pl.mode]++ }
+		visit := func(seq []op) {
+			if len(seq) >= pl.minLen {
+				n[pl.mode]++
+			}
+		}
 		if pl.short {
 			if pl.maxLen >= 0 {
 				enumerate(pl.cfg, pl.ext, nil, pl.maxLen, visit)
@@ -1764,6 +1780,9 @@ func tooManyViolations() bool { return rec.Violations() > violationCap }
 
 func runPlan(t *testing.T, idx int, pl plan) {
 	switch pl.mode {
+	case "slice", "randslice":
+		runSlicePlan(t, idx, pl)
+		return
 	case "burst", "racing":
 		setProcs(4)
 	default:
@@ -1775,7 +1794,7 @@ func runPlan(t *testing.T, idx int, pl plan) {
 		rec.Begin(idx, pl.String())
 		var non, triv int64
 		visit := func(seq []op) {
-			if tooManyViolations() {
+			if tooManyViolations() || len(seq) < pl.minLen {
 				return
 			}
 			rec.Step(seqString(seq))
